@@ -227,6 +227,7 @@ class _CMIF(_Plot):
     qualname = "pyoma2.functions.plot.CMIF_plot"
     loops = {0: LoopSpec(_cmif_loop)}
     all_curves = True
+    with_freqlim = False
 
     def setup(self, c):
         nr = S.integer("nr", lo=1)
@@ -237,6 +238,9 @@ class _CMIF(_Plot):
         c.assume(nc <= nr)
         if not self.all_curves:
             a["nSv"] = S.integer("nSv", lo=0)
+        if self.with_freqlim:
+            # a frequency window only sets the visible range: the 0 dB reference stays the maximum over the WHOLE grid
+            a["freqlim"] = (S.real("f_lo", py=False), S.real("f_hi", py=False))
         return a
 
     def check(self, c, pre, post, outcome):
@@ -279,6 +283,13 @@ class cmif_all(_CMIF):
 class cmif_n(_CMIF):
     name = "nSv"
     all_curves = False
+
+
+@register
+class cmif_all_window(_CMIF):
+    name = "all, frequency window"
+    all_curves = True
+    with_freqlim = True
 
 
 # ----------------------------------------------------------------------------------
